@@ -208,9 +208,9 @@ def rank_kernel(run, m):
         env[loops[0]['pat']['local']] = 'i'
         tbl = dtree.table(loops[0]['ch'][1], env)
         want = {(frozenset({'VALID(self.uget(i))', '(self.uget(i) < v)'}), '()', ('rank AddAssign 1.',)),
-                (frozenset({'VALID(self.uget(i))', '!(self.uget(i) < v)', '(self.uget(i) == v)'}), '()',
+                (frozenset({'VALID(self.uget(i))', '(v <= self.uget(i))', '(self.uget(i) == v)'}), '()',
                  ('n_repeat AddAssign 1',)),
-                (frozenset({'VALID(self.uget(i))', '!(self.uget(i) < v)', '!(self.uget(i) == v)'}), '()', ()),
+                (frozenset({'VALID(self.uget(i))', '(v <= self.uget(i))', '(self.uget(i) != v)'}), '()', ()),
                 (frozenset({'!VALID(self.uget(i))'}), '()', ())}
         # canonical orientation of == may differ
         tbl2 = {(frozenset(c.replace('(v == self.uget(i))', '(self.uget(i) == v)') for c in cs), l, e)
@@ -356,14 +356,14 @@ def minmax(run, m):
         def rows(*specs):
             return {(frozenset(c), '()', tuple(e)) for c, e in specs}
         want = {
-            '(true, false)': rows(([V, '(max <= self.uget(i))'], MAXU), ([V, '!(max <= self.uget(i))'], ()),
+            '(true, false)': rows(([V, '(max <= self.uget(i))'], MAXU), ([V, '(self.uget(i) < max)'], ()),
                                   (['!' + V], ())),
-            '(false, true)': rows(([V, '(self.uget(i) <= min)'], MINU), ([V, '!(self.uget(i) <= min)'], ()),
+            '(false, true)': rows(([V, '(self.uget(i) <= min)'], MINU), ([V, '(min < self.uget(i))'], ()),
                                   (['!' + V], ())),
             '(true, true)': rows(([V, '(max <= self.uget(i))', '(self.uget(i) <= min)'], MAXU + MINU),
-                                 ([V, '(max <= self.uget(i))', '!(self.uget(i) <= min)'], MAXU),
-                                 ([V, '!(max <= self.uget(i))', '(self.uget(i) <= min)'], MINU),
-                                 ([V, '!(max <= self.uget(i))', '!(self.uget(i) <= min)'], ()),
+                                 ([V, '(max <= self.uget(i))', '(min < self.uget(i))'], MAXU),
+                                 ([V, '(self.uget(i) < max)', '(self.uget(i) <= min)'], MINU),
+                                 ([V, '(self.uget(i) < max)', '(min < self.uget(i))'], ()),
                                  (['!' + V], ())),
         }
         for k, w in want.items():
